@@ -611,6 +611,12 @@ int BaseKillPlugin::tryToKillPids(const std::vector<int>& pids) {
   int nrKilled = 0;
 
   for (int pid : pids) {
+    // cgroup.procs lists processes of pid namespaces we cannot see as 0;
+    // kill(0, ...) / kill(-n, ...) would signal whole process groups,
+    // starting with our own
+    if (pid <= 0) {
+      continue;
+    }
     auto commPath = std::string("/proc/") + std::to_string(pid) + "/comm";
     auto comm = Fs::readFileByLine(commPath);
 
